@@ -21,8 +21,7 @@ VARIABLES metaLen, hdrLen, size, limit, heads, recs,   \* the file
 file == <<metaLen, hdrLen, size, limit, heads, recs>>
 vars == <<metaLen, hdrLen, size, limit, heads, recs, want, nops, last>>
 
-HeadOf(b) == IF b \in DOMAIN heads THEN heads[b] ELSE 0
-NoOp == [op |-> "init", a |-> "-", id |-> 0, nlen |-> 0, b |-> 0, k |-> 0, m |-> 0]
+NoOp == [op |-> "init", a |-> "-", id |-> 0, nlen |-> 0, b |-> 0, k |-> 0, m |-> 0, x |-> 0]
 
 Init == /\ metaLen = 0 /\ hdrLen = 0 /\ size = 0 /\ limit = 0 /\ heads = <<>> /\ recs = {}
         /\ want = <<>> /\ nops = 0 /\ last = NoOp
@@ -30,22 +29,34 @@ Init == /\ metaLen = 0 /\ hdrLen = 0 /\ size = 0 /\ limit = 0 /\ heads = <<>> /\
 CreateEff(m) == /\ metaLen' = m /\ hdrLen' = HeaderLen(m) /\ size' = Page /\ limit' = 0
                 /\ heads' = <<>> /\ recs' = {} /\ want' = <<>>
 
-AddEff(nm, k) ==
-    /\ want' = [x \in DOMAIN want \cup {nm.id} |-> IF x = nm.id THEN (IF x \in DOMAIN want THEN want[x] ELSE 0) + k ELSE want[x]]
-    /\ IF \E r \in recs : r.id = nm.id
-       THEN /\ recs' = {IF r.id = nm.id THEN [r EXCEPT !.val = @ + k] ELSE r : r \in recs}
-            /\ UNCHANGED <<metaLen, hdrLen, size, limit, heads>>
-       ELSE LET pl == Place(hdrLen, limit, nm.nlen) IN
-            /\ recs' = recs \cup {[off |-> pl[1], nlen |-> nm.nlen, next |-> HeadOf(nm.b), id |-> nm.id, val |-> k, b |-> nm.b]}
-            /\ heads' = [x \in DOMAIN heads \cup {nm.b} |-> IF x = nm.b THEN pl[1] ELSE heads[x]]
-            /\ limit' = pl[2]
-            /\ size' = IF pl[2] > size THEN Up(pl[2], Page) ELSE size     \* the file grows by whole pages
-            /\ UNCHANGED <<metaLen, hdrLen>>
+(* the changing part of the file as a value, so that operations compose *)
+Cur == [size |-> size, limit |-> limit, heads |-> heads, recs |-> recs, want |-> want]
+Bump(w, id, k) == [x \in DOMAIN w \cup {id} |-> IF x = id THEN (IF x \in DOMAIN w THEN w[x] ELSE 0) + k ELSE w[x]]
+Grown(sz, end) == IF end > sz THEN Up(end, Page) ELSE sz                 \* the file grows by whole pages
+(* name nm is used (k more): an existing record is incremented, otherwise a record is allocated and put at the head of its bucket *)
+AddF(f, nm, k) ==
+    IF \E r \in f.recs : r.id = nm.id
+    THEN [f EXCEPT !.recs = {IF r.id = nm.id THEN [r EXCEPT !.val = @ + k] ELSE r : r \in f.recs}, !.want = Bump(f.want, nm.id, k)]
+    ELSE LET pl == Place(hdrLen, f.limit, nm.nlen)
+             hd == IF nm.b \in DOMAIN f.heads THEN f.heads[nm.b] ELSE 0
+         IN  [size  |-> Grown(f.size, pl[2]), limit |-> pl[2],
+              heads |-> [x \in DOMAIN f.heads \cup {nm.b} |-> IF x = nm.b THEN pl[1] ELSE f.heads[x]],
+              recs  |-> f.recs \cup {[off |-> pl[1], nlen |-> nm.nlen, next |-> hd, id |-> nm.id, val |-> k, b |-> nm.b]},
+              want  |-> Bump(f.want, nm.id, k)]
+(* a writer that had already reserved and written its record for nm finds, when linking it, that nm has just been linked by *)
+(* someone else: its own record stays unlinked (dead, below the limit), the increment goes to the linked record              *)
+DeadF(f, nm, k) ==
+    LET pl == Place(hdrLen, f.limit, nm.nlen) IN
+    [f EXCEPT !.limit = pl[2], !.size = Grown(f.size, pl[2]),
+              !.recs = {IF r.id = nm.id THEN [r EXCEPT !.val = @ + k] ELSE r : r \in f.recs}, !.want = Bump(f.want, nm.id, k)]
+Becomes(g) == /\ size' = g.size /\ limit' = g.limit /\ heads' = g.heads /\ recs' = g.recs /\ want' = g.want
+              /\ UNCHANGED <<metaLen, hdrLen>>
+AddEff(nm, k) == Becomes(AddF(Cur, nm, k))
 
 Create(m) == /\ hdrLen = 0 /\ CreateEff(m) /\ nops' = nops + 1
              /\ last' = [NoOp EXCEPT !.op = "create", !.m = m]
 Add(a, nm, k) == /\ hdrLen # 0 /\ nops < MaxOps /\ AddEff(nm, k) /\ nops' = nops + 1
-                 /\ last' = [op |-> "add", a |-> a, id |-> nm.id, nlen |-> nm.nlen, b |-> nm.b, k |-> k, m |-> 0]
+                 /\ last' = [op |-> "add", a |-> a, id |-> nm.id, nlen |-> nm.nlen, b |-> nm.b, k |-> k, m |-> 0, x |-> 0]
 Reopen(a) == /\ hdrLen # 0 /\ nops < MaxOps /\ last.op # "reopen" /\ UNCHANGED <<file, want>> /\ nops' = nops + 1
              /\ last' = [NoOp EXCEPT !.op = "reopen", !.a = a]
 (* A writer whose metadata differs from the file's (another program that maps  *)
@@ -54,11 +65,23 @@ Reopen(a) == /\ hdrLen # 0 /\ nops < MaxOps /\ last.op # "reopen" /\ UNCHANGED <
 (* file -- header, metadata, table, records -- stays exactly as it is and the  *)
 (* increments of that writer never reach it.  Holds for files of any size.     *)
 Alien(m, nm) == /\ hdrLen # 0 /\ nops < MaxOps /\ UNCHANGED <<file, want>> /\ nops' = nops + 1
-                /\ last' = [op |-> "alien", a |-> "alien", id |-> nm.id, nlen |-> nm.nlen, b |-> nm.b, k |-> 1, m |-> m]
+                /\ last' = [op |-> "alien", a |-> "alien", id |-> nm.id, nlen |-> nm.nlen, b |-> nm.b, k |-> 1, m |-> m, x |-> 0]
+(* Two writers create a record at the same time: library writer a (with an up-to-date mapping) starts to allocate the  *)
+(* new name nm, finds that the file must grow, and while it is doing that the independent writer adds the new name x  *)
+(* (x = nm: the same name; or another name, e.g. of the same bucket).  Whatever the interleaving inside, the file must  *)
+(* be the one obtained by x being added first and nm second; for x = nm writer a's own record stays unlinked.           *)
+Race(a, nm, x, k) ==
+    /\ hdrLen # 0 /\ nops < MaxOps
+    /\ ~\E r \in recs : r.id = nm.id \/ r.id = x.id
+    /\ Place(hdrLen, limit, nm.nlen)[2] > size                  \* a's first attempt needs a bigger file
+    /\ Becomes(IF x.id = nm.id THEN DeadF(AddF(Cur, x, 1), nm, k) ELSE AddF(AddF(Cur, x, 1), nm, k))
+    /\ nops' = nops + 1
+    /\ last' = [op |-> "race", a |-> a, id |-> nm.id, nlen |-> nm.nlen, b |-> nm.b, k |-> k, m |-> 0, x |-> x.id]
 Next == \/ \E m \in MetaLens : Create(m)
         \/ \E m \in MetaLens, nm \in Names : Alien(m, nm)
         \/ \E a \in Actors, nm \in Names, k \in Incs : Add(a, nm, k)
         \/ \E a \in Actors : Reopen(a)
+        \/ \E a \in Actors \ {"ind"}, nm \in Names : \E x \in {y \in Names : y.b = nm.b} : Race(a, nm, x, 1)
 Spec == Init /\ [][Next]_vars
 
 (* the file in the vocabulary of FileFormat.tla *)
@@ -85,5 +108,10 @@ Exact    == hdrLen # 0 =>
     /\ Cardinality(Linked(AsFile)) = Cardinality(recs)                      \* every record is reachable
 Monotone == [][(hdrLen # 0 /\ last'.op # "create") => /\ limit' >= limit /\ size' >= size /\ hdrLen' = hdrLen /\ metaLen' = metaLen
                              /\ \A r \in recs : \E s \in recs' : s.off = r.off /\ s.nlen = r.nlen /\ s.id = r.id /\ s.val >= r.val]_vars
+(* named windows (their negations are checked in a separate run: the counter-example is the shortest way in) *)
+EdgeFull == \E r, t \in recs : RecSize(r.nlen) + r.off = Page - Unit /\ t.off = Page      \* a record ends exactly where the reserved tail begins
+EdgeBump == \E r, t \in recs : r.off + RecSize(r.nlen) + RecSize(t.nlen) = Page /\ t.off = Page   \* a record would have reached the page end
+NoEdgeFull == ~EdgeFull
+NoEdgeBump == ~EdgeBump
 View == <<file, nops>>
 =============================================================================
